@@ -3,6 +3,7 @@ package object
 import (
 	"bytes"
 	"fmt"
+	"sort"
 	"strings"
 )
 
@@ -14,6 +15,20 @@ func (o *Obj) Type() ObjectType {
 	return OBJ_OBJ
 }
 
+// sortedKeys returns the keys of the object in a fixed order,
+// so that printing an object gives the same result every time
+func (o *Obj) sortedKeys() []string {
+	keys := make([]string, 0, len(o.Pairs))
+
+	for key := range o.Pairs {
+		keys = append(keys, key)
+	}
+
+	sort.Strings(keys)
+
+	return keys
+}
+
 func (o *Obj) String() string {
 	var out bytes.Buffer
 
@@ -22,7 +37,9 @@ func (o *Obj) String() string {
 	idx := 0
 	last := len(o.Pairs) - 1
 
-	for key, pair := range o.Pairs {
+	for _, key := range o.sortedKeys() {
+		pair := o.Pairs[key]
+
 		out.WriteString(key + ": " + pair.String())
 
 		if idx != last {
@@ -48,7 +65,9 @@ func (o *Obj) Dump(ident int) string {
 
 	insideSpaces := strings.Repeat("  ", ident)
 
-	for key, pair := range o.Pairs {
+	for _, key := range o.sortedKeys() {
+		pair := o.Pairs[key]
+
 		out.WriteString(insideSpaces)
 		out.WriteString(`<span class="textwire-prop">"` + key + `"</span>`)
 		out.WriteString(": ")
